@@ -2,7 +2,7 @@
    executable statement `spec_ok` written from the property text ("each call that succeeds without caching returns
    an equal value with caching enabled; a repeated call with equal arguments does not re-execute a cached function
    whose entry is still resident").  spec_ok never calls CacheSem.crun / exec_hist. *)
-From Verif Require Export Base.Prelude Base.StrOrd Base.Graph Model.Pipe Corr.PipeObs Model.CacheSem.
+From Verif Require Export Base.Prelude Base.StrOrd Base.Graph Model.Pipe Corr.PipeObs Model.CacheSem Model.CacheSemSpec.
 From Verif Require Corr.Run_C09Map.
 
 Inductive case :=
@@ -40,7 +40,7 @@ Definition hist_obs {C} (P : policy C) (c0 : C) (modelled : bool) (p : pipeline)
 Definition run (c : case) : sx :=
   match c with
   | CHist p ct lmax h =>
-      if negb (forallb (fun q => wf_pipelineb q && roots_okb q) (hist_pipelines p h)) then bad_case
+      if negb (hist_wfb p h) then bad_case
       else match ct with
            | 0 => hist_obs simple_policy [] true p h
            | 1 => hist_obs lru_policy (lru_empty lmax) true p h
@@ -116,6 +116,6 @@ Definition hist_ok (p : pipeline) (ct : nat) (h : list step) (obs : sx) : bool :
 Definition spec_ok (c : case) (obs : sx) : bool :=
   match c with
   | CHist p ct _ h =>
-      if forallb (fun q => wf_pipelineb q && roots_okb q) (hist_pipelines p h) then hist_ok p ct h obs else true
+      if hist_wfb p h then hist_ok p ct h obs else true
   | CMap m => Run_C09Map.spec_ok m obs
   end.
